@@ -387,6 +387,8 @@ func (f *FnEnc) binop(R string, op token.Token, x, y Val, rt types.Type, pos tok
 			r := f.ufVal("sconcat", rt, x, y)
 			f.c.assume(R, eq("(slen "+r.L[0]+")", "(bvadd (slen "+x.L[0]+") (slen "+y.L[0]+"))"))
 			f.c.assume(R, "(bvult (slen "+r.L[0]+") "+bv64(maxLen)+")")
+			// concatenation with an empty string
+			f.c.assume(R, and(implies(eq("(slen "+y.L[0]+")", bv64(0)), eq(r.L[0], x.L[0])), implies(eq("(slen "+x.L[0]+")", bv64(0)), eq(r.L[0], y.L[0]))))
 			// the bytes of a concatenation
 			f.c.assume(R, "(forall ((i!q (_ BitVec 64))) (! (= (sbyte "+r.L[0]+" i!q) (ite (bvult i!q (slen "+x.L[0]+")) (sbyte "+x.L[0]+" i!q) (sbyte "+y.L[0]+" (bvsub i!q (slen "+x.L[0]+"))))) :pattern ((sbyte "+r.L[0]+" i!q))))")
 			return r
@@ -735,7 +737,7 @@ func (f *FnEnc) substr(R string, x Val, lo, hi string, rt types.Type) Val {
 	r := f.c.define("sub", SStr, app("ssub", x.L[0], lo, hi))
 	f.c.assume(R, eq("(slen "+r+")", "(bvsub "+hi+" "+lo+")"))
 	f.c.assume(R, implies(and(eq(lo, bv64(0)), eq(hi, "(slen "+x.L[0]+")")), eq(r, x.L[0])))
-	if f.eng.strContent {
+	if f.c.strExt {
 		f.c.assume(R, "(forall ((k!q (_ BitVec 64))) (! (=> (bvult k!q (bvsub "+hi+" "+lo+")) (= (sbyte "+r+" k!q) (sbyte "+x.L[0]+" (bvadd "+lo+" k!q)))) :pattern ((sbyte "+r+" k!q))))")
 	}
 	return Val{T: rt, L: []string{r}}
@@ -760,7 +762,7 @@ func (f *FnEnc) convert(fr *Frame, st *State, R string, in *ssa.Convert) {
 		r := f.c.fresh("s_of_bytes", SStr)
 		if f.l.cells(sl.Elem()) == 1 && intWidth(sl.Elem()) == 8 {
 			f.c.assume(R, eq("(slen "+r+")", x.L[3]))
-			if f.eng.strContent {
+			if f.c.strExt {
 				inner := sel(sel(f.heap(st, SBV8), x.L[0]), x.L[1])
 				f.c.assume(R, "(forall ((k!q (_ BitVec 64))) (! (=> (bvult k!q "+x.L[3]+") (= (sbyte "+r+" k!q) (select "+inner+" (bvadd "+x.L[2]+" k!q)))) :pattern ((sbyte "+r+" k!q))))")
 			}
